@@ -16,6 +16,7 @@ Section Root3.
   Variable tn : bool.
   Variable decls : list (name * list name).
   Variable rdecls : list rdecl.
+  Variable ab : bool.
   Variable k : nat.
 
   Notation vars := (pvars vdsM supM).
@@ -24,7 +25,8 @@ Section Root3.
 
   Hypothesis HeQ : find_entity U Q [] = Some eQ.
   Hypothesis Hc : univ3_contract_b sc subs decls rdecls U = true.
-  Hypothesis HFL : FL_at U sc subs vdsM supM F kq tn decls rdecls k.
+  Hypothesis HFL : FL_at U sc subs vdsM supM F kq tn decls rdecls ab k.
+  Hypothesis HFA : FA_at U sc subs vdsM supM F kq tn decls rdecls ab k.
 
   (* the per-field results, totalised: on a selection that is not a plain field (never the case in an accepted plan) the
      result is an invalid-request error, so that the shape facts of the plan algebra hold for every field *)
@@ -37,8 +39,18 @@ Section Root3.
     match r3_item d with
     | PKeep _ => r
     | PDown a n args sh T' sub => tr3 U sc subs vdsM supM F tn k (response_name a n) sh T' sub r
+    | PAbs a n args sh T' csel rsel alts => tr3a U sc subs vdsM supM F tn k (response_name a n) sh alts r
     end.
-  Definition has_fetch3 (d : rfield3) : bool := match r3_item d with PKeep _ => false | PDown _ _ _ _ _ _ => true end.
+  Definition has_fetch3 (d : rfield3) : bool := match r3_item d with PKeep _ => false | _ => true end.
+
+  Lemma tr3a_prefix key sh alts o e :
+    fst (tr3a U sc subs vdsM supM F tn k key sh alts (o, e)) = fst (tr3a U sc subs vdsM supM F tn k key sh alts (o, [])) /\
+    (snd (tr3a U sc subs vdsM supM F tn k key sh alts (o, e)) = [] <->
+     e = [] /\ snd (tr3a U sc subs vdsM supM F tn k key sh alts (o, [])) = []).
+  Proof.
+    unfold tr3a. destruct o as [[|[k0 v] [|? ?]]|]; cbn [fst snd app]; try tauto.
+    rewrite app_nil_iff. tauto.
+  Qed.
 
   Lemma tr3_none key sh T' sub e : tr3 U sc subs vdsM supM F tn k key sh T' sub (None, e) = (None, e).
   Proof. reflexivity. Qed.
@@ -67,22 +79,22 @@ Section Root3.
   Qed.
 
   Theorem root3_sound ds :
-    tv3_static_b sc subs [] vdsM supM kq decls rdecls k ds = true ->
+    tvg_static_b sc subs [] vdsM supM kq ab decls rdecls k ds = true ->
     (ds_need sc ds <= F)%nat ->
     sres_weq (gateway3 U sc subs [] vdsM supM eQ F F tn k ds) (mono_client3 U sc [] vdsM supM eQ F ds).
   Proof.
-    intros Hok HF'. unfold tv3_static_b in Hok.
+    intros Hok HF'. unfold tvg_static_b in Hok.
     apply andb_true_iff in Hok. destruct Hok as [Hok HFs].
     apply andb_true_iff in Hok. destruct Hok as [Hok Hnr].
     apply andb_true_iff in Hok. destruct Hok as [Hwfs Hk].
     pose proof Hc as Hcu. unfold univ3_contract_b in Hcu.
     destruct (find_entity_In _ _ _ _ HeQ) as [HeU HeT].
     rewrite forallb_forall in HFs.
-    assert (Hst : forall d, In d ds -> item_static_b sc subs [] vdsM supM kq decls rdecls k Q (r3_item d) = true).
+    assert (Hst : forall d, In d ds -> item_static_b sc subs [] vdsM supM kq ab decls rdecls k Q (r3_item d) = true).
     { intros d Hd. specialize (HFs d Hd). unfold rfield3_static_b in HFs. apply andb_true_iff in HFs. apply HFs. }
     assert (Hpl : forall d, In d ds -> (exists a n args ss, item_proj (r3_item d) = SField a n args [] ss) /\
                                       (exists a n args ss, item_client (r3_item d) = SField a n args [] ss)).
-    { intros d Hd. apply (item_static_plain sc subs vdsM supM kq decls rdecls k Q). apply Hst. exact Hd. }
+    { intros d Hd. apply (item_static_plain sc subs vdsM supM kq ab decls rdecls k Q). apply Hst. exact Hd. }
     assert (Hlen : (length ds < F)%nat).
     { apply Nat.lt_le_trans with (m := ds_need sc ds); [|exact HF'].
       unfold ds_need. apply Nat.lt_le_trans with (m := fuel_bound sc (map (fun d => item_client (r3_item d)) ds)); [|lia].
@@ -120,7 +132,8 @@ Section Root3.
     { intros d. unfold a_of3, guard, r3_key.
       destruct (item_proj (r3_item d)) as [a n args [|? ?] ss| |] eqn:Ep; cbn [plain_field]; try (left; eexists; reflexivity).
       assert (Hkk : item_key (r3_item d) = response_name a n).
-      { destruct (r3_item d) as [s|a' n' args' sh T' sub]; cbn [item_proj] in Ep; [subst s; reflexivity|injection Ep as <- <- _ _; reflexivity]. }
+      { destruct (r3_item d) as [s|a' n' args' sh T' sub|a' n' args' sh T' csel rsel alts]; cbn [item_proj] in Ep;
+          [subst s; reflexivity|injection Ep as <- <- _ _; reflexivity|injection Ep as <- <- _ _; reflexivity]. }
       rewrite Hkk.
       destruct (single_field_shape (sub_at sc subs (r3_root d)) U [] vars Sub F a n args ss Q ovQ []) as [[e H]|[v [e H]]];
         [left; exists e; exact H|right; exists v, e; exact H]. }
@@ -128,7 +141,8 @@ Section Root3.
     { intros d. unfold m_of3, guard, mex, r3_key.
       destruct (item_client (r3_item d)) as [a n args [|? ?] ss| |] eqn:Ep; cbn [plain_field]; try (left; eexists; reflexivity).
       assert (Hkk : item_key (r3_item d) = response_name a n).
-      { destruct (r3_item d) as [s|a' n' args' sh T' sub]; cbn [item_client] in Ep; [subst s; reflexivity|injection Ep as <- <- _ _; reflexivity]. }
+      { destruct (r3_item d) as [s|a' n' args' sh T' sub|a' n' args' sh T' csel rsel alts]; cbn [item_client] in Ep;
+          [subst s; reflexivity|injection Ep as <- <- _ _; reflexivity|injection Ep as <- <- _ _; reflexivity]. }
       rewrite Hkk.
       destruct (single_field_shape sc U [] vars Mono F a n args ss Q ovQ []) as [[e H]|[v [e H]]];
         [left; exists e; exact H|right; exists v, e; exact H]. }
@@ -171,31 +185,36 @@ Section Root3.
       assert (Hm : m_of3 d = mex U sc vdsM supM F Q eQ [item_client (r3_item d)] []).
       { unfold m_of3, guard. rewrite (proj2 (Hgp d Hd)). reflexivity. }
       rewrite Ha, Hm. unfold tr_of3.
-      destruct (r3_item d) as [s|a n args sh T' sub] eqn:Ei.
+      destruct (r3_item d) as [s|a n args sh T' sub|a n args sh T' csel rsel alts] eqn:Ei.
       - cbn [item_proj item_client]. apply sres_weq_refl.
       - cbn [item_proj item_client].
         apply (HFL Q eQ a n args sh T' sub [] []); [exact Hit|exact HeU|exact HeT|].
+        pose proof (need_item_le ds d Hd) as Hle. rewrite Ei in Hle. clear -Hle HF'. lia.
+      - cbn [item_proj item_client].
+        apply (HFA Q eQ a n args sh T' csel rsel alts [] []); [exact Hit|exact HeU|exact HeT|].
         pose proof (need_item_le ds d Hd) as Hle. rewrite Ei in Hle. clear -Hle HF'. lia. }
     (* the plan algebra *)
     assert (HnoofM : no_oof (snd (Mfold rfield3 m_of3 ds)) = true).
     { rewrite <- HM. unfold mono_client3. apply exec_sels_fuel_sufficient.
       - apply forallb_forall. intros s Hs. apply in_map_iff in Hs. destruct Hs as (d & <- & Hd).
-        apply (proj2 (static_nospread sc subs vdsM supM kq decls rdecls k) Q (r3_item d) (Hst d Hd)).
+        apply (proj2 (static_nospread sc subs vdsM supM kq ab decls rdecls k) Q (r3_item d) (Hst d Hd)).
       - clear -HF'. unfold ds_need in HF'. lia. }
     assert (Hgen : sres_weq (run_fetches (gefs rfield3 r3_key tr_of3 has_fetch3 ds) (Rfold rfield3 a_of3 ds)) (Mfold rfield3 m_of3 ds)).
     { apply (gen_alg rfield3 r3_key a_of3 m_of3 tr_of3 has_fetch3); try assumption.
       - intros d e. unfold tr_of3. destruct (r3_item d); reflexivity.
-      - intros d o e. unfold tr_of3. destruct (r3_item d); [cbn [fst snd]; tauto|apply tr3_prefix].
-      - intros d Hh r. unfold tr_of3, has_fetch3 in *. destruct (r3_item d); [reflexivity|discriminate]. }
+      - intros d o e. unfold tr_of3. destruct (r3_item d); [cbn [fst snd]; tauto|apply tr3_prefix|apply tr3a_prefix].
+      - intros d Hh r. unfold tr_of3, has_fetch3 in *. destruct (r3_item d); [reflexivity|discriminate|discriminate]. }
     (* the model's fetch list is the algebra's *)
-    assert (Hfs : run_fetches (item_fetches (lift U sc subs [] vdsM supM F tn k) (map (fun d => (r3_root d, r3_item d)) ds))
+    assert (Hfs : run_fetches (item_fetches (lift U sc subs [] vdsM supM F tn k) (lifta U sc subs [] vdsM supM F tn k) (map (fun d => (r3_root d, r3_item d)) ds))
                               (root_state3 U sc subs [] vdsM supM eQ F ds) =
                   run_fetches (gefs rfield3 r3_key tr_of3 has_fetch3 ds) (root_state3 U sc subs [] vdsM supM eQ F ds)).
     { apply run_fetches_ext. clear. induction ds as [|d l IH]; [constructor|].
       cbn [map]. unfold item_fetches, gefs in *. cbn [flat_map snd]. unfold has_fetch3 at 1, ffun, r3_key at 1 2 3, tr_of3 at 1.
-      destruct (r3_item d) as [s|a n args sh T' sub]; cbn [app]; [exact IH|].
-      constructor; [|exact IH]. cbn [fst snd item_key]. split; [reflexivity|]. intros v. unfold tr3. cbn [fst snd app].
-      destruct (vres_sres (response_name a n) (lift U sc subs [] vdsM supM F tn k sh T' sub v)); reflexivity. }
+      destruct (r3_item d) as [s|a n args sh T' sub|a n args sh T' csel rsel alts]; cbn [app]; [exact IH| |].
+      - constructor; [|exact IH]. cbn [fst snd item_key]. split; [reflexivity|]. intros v. unfold tr3. cbn [fst snd app].
+        destruct (vres_sres (response_name a n) (lift U sc subs [] vdsM supM F tn k sh T' sub v)); reflexivity.
+      - constructor; [|exact IH]. cbn [fst snd item_key]. split; [reflexivity|]. intros v. unfold tr3a. cbn [fst snd app].
+        destruct (vres_sres (response_name a n) (lifta U sc subs [] vdsM supM F tn k sh alts v)); reflexivity. }
     unfold gateway3. rewrite Hfs.
     destruct HR as [R1 R2].
     destruct (root_state3 U sc subs [] vdsM supM eQ F ds) as [oR eR] eqn:ER.
